@@ -83,6 +83,15 @@ names = [
  ('n1_full_agrees', "generated BucketOpenN1::IsFull = the model's isFull, for every maxCount 1..7 and both layouts."),
  ('n1_add', "generated BucketOpenN1::AddCrt keeps the abstraction relation."),
  ('n1_remove', "generated BucketOpenN1::Remove keeps the abstraction relation."),
+ ('gen_addnogrow_is_tadd', """T-gen tie of the insertion probe loop.  The loop of HashSet::pvAddNogrow (`while (bucket->IsFull()) { ++probe; if (probe >= bucketCount) throw "Hash table is full"; bucketIndex = GetNextBucketIndex(..); bucket = &buckets[bucketIndex]; }`) is regenerated from HashSet.h on every run (Gen_HashSetMove.v; buckets are handles, IsFull / GetNextBucketIndex are parameters).  Instantiated with the model table (IsFull of the model bucket, the kind's next-index function) the GENERATED loop throws "Hash table is full" exactly when the hand model's tadd fails, and otherwise stops at the bucket and with the probe count where tadd places the item.  So every theorem above about full tables / fallback insertion / migration targets rests on the generated loop."""),
+ ('gen_addnogrow_loop', "the same, loop against loop: generated pvAddNogrow loop = the hand model's add_loop from any intermediate probe."),
+ ('gen_reloc_inner', "T-gen, loop skeleton of HashSet::pvRelocateItems(Buckets ptr) -- generated; GetHashCodePart and Remove-with-replacer -- whose replacer is the pvAddNogrow into the newest table -- are parameters = the item move as a primitive: the inner loop over a bucket with c items performs exactly c moves, on the items end-1, end-2, ..., end-c (last to first, the order of the hand model's reloc_items), given that Remove of the last item hands the iterator back."),
+ ('gen_reloc_outer', "... and the outer loop handles every bucket 0 .. bucketCount-1 exactly once in ascending order (the order of the hand model's reloc_buckets) and ends at bucketCount.  The EFFECTS of a move, the exception paths (failure swallowed, generations stay linked) and the recursion over older generations remain hand-modelled (GrowModel.reloc) and are tied by T-cor."),
+ ('limp4_same_code_3_is_4', "same-code: BucketLimP4<.., 3, .., true> translated with maxCount symbolic gives literally the same Gallina as BucketLimP4<.., 4, .., true> for pvGetCount, IsFull, pvGetMemPoolIndex, WasFull, pvSetPtrState, pvSetEmpty, Clear, Remove (AddCrt differs per maxCount and is not claimed)."),
+ ('limp4_same_code_2_is_4', "... BucketLimP4<2>."),
+ ('limp4_same_code_1_is_4', "... BucketLimP4<1>."),
+ ('limp4_symbolic_at_4_is_concrete', "the symbolic translation at maxCount = 4 is the concrete translation that GenFullP4.v / C12's stack reason about."),
+ ('limp4_isfull_any_maxcount', "what the shared IsFull says for every maxCount 1..4: the last short-hash byte is below maskEmpty."),
  ('same_code_open2n2_policy', "HashBucketOpen2N2<1> and HashBucketOpen2N2<3> translate to the same Gallina (maxCount is a Section variable): one proof covers all instantiations."),
  ('same_code_open_index', "BucketOpen8 and BucketOpen2N2 have the same GetNextBucketIndex."),
  ('concrete_kind_ok', "the hypotheses kind_ok hold for the concrete kinds used by the extracted model (mask start index, linear and triangular probing, exact max-probe bound, both growth policies)."),
@@ -96,7 +105,7 @@ names = [
  ('ex_refused_until_full', "non-vacuity: with every growth refused a 2-bucket Open2N2<3> table accepts insertions up to 6 items through the fallback path, then reports full."),
 ]
 hdr = '''From Coq Require Import ZArith List Bool Permutation.
-From C11 Require Import GrowModel GenTie GenGrow GenFull GenFullP4.
+From C11 Require Import GrowModel GenTie GenGrow GenFull GenFullP4 GenMove GenSame.
 Import ListNotations.
 Local Open Scope Z_scope.
 Set Printing Width 130.
@@ -115,7 +124,7 @@ res = '''(* Property C11 -- theorems only.  Each is closed by `exact <lemma>` an
    UpdateMaxProbe never under-approximates, the growth policy does not shrink / probing reaches every bucket,
    CalcCapacity <= physical size); they are proved below for the kinds used by the extracted model. *)
 From Coq Require Import ZArith List Bool Permutation.
-From C11 Require Import GrowModel GenTie GenGrow GenFull GenFullP4.
+From C11 Require Import GrowModel GenTie GenGrow GenFull GenFullP4 GenMove GenSame.
 Import ListNotations.
 Local Open Scope Z_scope.
 
